@@ -177,6 +177,10 @@ class Sym:
                 t = ("ref", ("cname", inner[1], v, inner[3]))
         # re-home call ids: promoted bodies rarely contain calls; mark them unknown if so
         if _contains(t, "call"):
+            # constant constructors (`A..=B` is RangeInclusive::new(A, B)) are kept; anything else stays opaque
+            calls = [x for x in subterms(t) if x[0] == "call"]
+            if all(x[1] == "new" and all(not _contains(a, "call") for a in x[2]) for x in calls):
+                return t
             return ("unknown", "promoted-with-call")
         return t
 
